@@ -176,8 +176,10 @@ func accept(c Case, h []event, final bool) *result {
 		ackOK     = map[int]bool{}    // seq of connection_ack events that answer an accepted init
 		connErrOK = map[int]bool{}
 		curMsg    = -1
-		lastW     *event             // previous message written to the client
-		pendErr   = map[string]int{} // by id: 1 + message index of the executor whose Execute returned an error most recently and whose error message is due
+		// ids for which the hook refused a subscribe while the id was free (it must still be free)
+		hookRefusedID = map[string]bool{}
+		lastW         *event             // previous message written to the client
+		pendErr       = map[string]int{} // by id: 1 + message index of the executor whose Execute returned an error most recently and whose error message is due
 	)
 	// subject is the operation id the event being judged is about ("" = connection level).
 	// Once a violation on an id has been attributed to a recorded finding, the reference and
@@ -348,6 +350,47 @@ func accept(c Case, h []event, final bool) *result {
 				}
 				return
 			}
+			if hookRefused(c, m) {
+				// Refused by the before-start hook: exactly one terminal error(id) with the hook's
+				// message, no executor, no operation instance, and the id stays as it was.
+				res.label("hook-refused")
+				hookErrs, otherErrs := 0, 0
+				for _, e := range f.sync {
+					if e.K == evW && e.Type == "error" && e.ID == m.ID {
+						consumed[e.Seq] = true
+						if e.Payload == hookErrPayload {
+							hookErrs++
+						} else {
+							otherErrs++
+						}
+					}
+				}
+				code, closedNow := syncHasClose(i)
+				if liveSpec(m.ID) != nil || maybeLive[m.ID] {
+					// the id is live: the duplicate rule and the hook both apply; either answer is
+					// accepted (the unchanged tree asks the hook first), but exactly one
+					res.label("hook-refused:on-live-id")
+					switch {
+					case closedNow && (!tws || code != 4409):
+						bad(f.rseq, "", "subscribe (message #%d) refused by the before-start hook for the live id %q: closed with %d (neither the hook's error(id) nor 4409)", i, m.ID, code)
+					case closedNow && hookErrs+otherErrs != 0, !closedNow && hookErrs+otherErrs != 1, !closedNow && tws && hookErrs != 1:
+						bad(f.rseq, "", "subscribe (message #%d) refused by the before-start hook for the live id %q must get exactly one answer (error(%s) %s or the duplicate-id answer), got %d hook errors, %d other errors, close=%v", i, m.ID, m.ID, hookErrPayload, hookErrs, otherErrs, closedNow)
+					}
+					return
+				}
+				if closedNow {
+					bad(f.rseq, "", "subscribe (message #%d, id %q) refused by the before-start hook must be answered by error(%s), but the server closed with %d", i, m.ID, m.ID, code)
+					return
+				}
+				if hookErrs != 1 || otherErrs != 0 {
+					bad(f.rseq, "", "subscribe (message #%d, id %q) refused by the before-start hook must be answered by exactly one error(%s) with payload %s, got %d such and %d other error messages", i, m.ID, m.ID, hookErrPayload, hookErrs, otherErrs)
+				}
+				if latest[m.ID] != nil {
+					res.label("hook-refused:id-of-ended-operation")
+				}
+				hookRefusedID[m.ID] = true
+				return
+			}
 			// did the server refuse it as a duplicate?
 			refusedBy := 0
 			if code, ok := syncHasClose(i); ok {
@@ -385,16 +428,27 @@ func accept(c Case, h []event, final bool) *result {
 						res.inconclusive = "re-subscribe raced with the end of a failed subscription"
 					}
 				}
+				why := "its last operation ended"
+				if hookRefusedID[m.ID] && latest[m.ID] == nil {
+					why = "the only earlier subscribe for it was refused by the before-start hook"
+				} else if hookRefusedID[m.ID] {
+					why += "; a later subscribe for it was refused by the before-start hook"
+				} else if latest[m.ID] == nil {
+					why = "never used before"
+				}
 				if tws {
-					bad(f.rseq, fd, "subscribe (message #%d) for id %q, which has no live operation (its last operation ended), was refused: server closed with %d", i, m.ID, refusedBy)
+					bad(f.rseq, fd, "subscribe (message #%d) for id %q, which has no live operation (%s), was refused: server closed with %d", i, m.ID, why, refusedBy)
 				} else {
-					bad(f.rseq, fd, "start (message #%d) for id %q, which has no live operation (its last operation ended), was refused with error(%s) and never executed", i, m.ID, m.ID)
+					bad(f.rseq, fd, "start (message #%d) for id %q, which has no live operation (%s), was refused with error(%s) and never executed", i, m.ID, why, m.ID)
 				}
 				return
 			}
 			delete(maybeLive, m.ID)
 			if latest[m.ID] != nil {
 				res.label("id-reused")
+			}
+			if hookRefusedID[m.ID] {
+				res.label("id-reused-after-hook-refusal")
 			}
 			sc := effectiveScript(m)
 			x := &inst{id: m.ID, m: i, op: sc.Op, startSeq: f.rseq}
